@@ -23,7 +23,7 @@ META = {
 }
 
 NEG = [('impl_clamp', ['Inv_C04_QTotal', 'Inv_C04_NoRaise']), ('impl_limit', ['Inv_C04_Refuse']),
-       ('impl_plus', ['Inv_C04_RoundTrip']), ('unsafe', ['Inv_C04_NoRaise', 'Inv_C04_RoundTrip'])]
+       ('impl_plus', ['Inv_C04_RoundTrip']), ('drop_empty', ['Inv_C04_RoundTrip']), ('unsafe', ['Inv_C04_NoRaise', 'Inv_C04_RoundTrip'])]
 
 
 def _txt(codes):
@@ -85,7 +85,7 @@ def run(tier):
     vlib.sany('Codec')
     vlib.sany('Trace_Codec')
     acts = ['Demux', 'AsFastq', 'Align', 'FromName', 'TagRead']
-    with ThreadPoolExecutor(max_workers=4) as ex:
+    with ThreadPoolExecutor(max_workers=5) as ex:
         negs = [ex.submit(vlib.mc, 'Codec', 'MC_Codec_%s.cfg' % v, expect='fail', expect_inv=inv, workers=2, coverage=False)
                 for v, inv in NEG]
         c.mc_pass('Codec', 'MC_Codec_design_%s.cfg' % ('q' if quick else 't'), actions_required=acts, workers=8 if quick else None,
